@@ -5,6 +5,7 @@
 #include "data.h"
 #include "type.h"
 #include "value.h"
+#include "util.h"
 
 
 namespace sqf
@@ -53,6 +54,10 @@ namespace sqf
             float value() const { return m_value; }
             void value(float f) { m_value = f; }
             operator float() { return m_value; }
+            // Whole numbers are taken from a scalar without its fraction and limited to what the target can
+            // hold (see util.h); NaN and negative numbers give no size.
+            operator int() { return sqf::runtime::util::float_to_int(m_value); }
+            operator size_t() { return m_value >= 1.0f ? (m_value >= 2147483648.0f ? static_cast<size_t>(2147483647) : static_cast<size_t>(m_value)) : 0; }
             static void set_decimals(int val) { s_decimals = val; }
             static int decimals() { return s_decimals; }
         };
